@@ -1015,10 +1015,6 @@ func c15ReopenableClose(ctx *core.Ctx, r *RT) {
 		if closeFn == nil {
 			continue
 		}
-		// the adapter transport's Close goes through close(cause), judged by C15.R4
-		if len(ssax.CallsTo(closeFn, "(*fAdapterTransport).close")) > 0 {
-			continue
-		}
 		for _, f := range armed {
 			n++
 			field := f
@@ -1026,7 +1022,7 @@ func c15ReopenableClose(ctx *core.Ctx, r *RT) {
 				c, ok := ssax.AsCall(in)
 				return ok && c.FullName() == "builtin.close" && fieldNameOfAddr(c.Common.Args[0]) == field
 			}
-			mn, mx := ssax.CountOnPathsToW(closeFn, nil, liftedWeight(closeFn, isClose, 1), func(*ssa.Return) bool { return true })
+			mn, mx := ssax.CountOnPathsToW(closeFn, nil, liftedWeight(closeFn, isClose, 3), func(*ssa.Return) bool { return true })
 			ctx.Check(mn == 1 && mx == 1, "C15.R7", ssax.Name(closeFn)+" › closes "+field+" exactly once on every path", fnPos(r, closeFn), "close("+field+") on every path through Close",
 				sprintf("close(%s) happens %d..%d times on a path through Close although Open re-arms the channel on every open: a guard that is not re-armed (sync.Once, a closed flag) lets only the first close of the transport's life publish its cause — whoever waits on Closed() of a reopened transport waits forever", field, mn, mx))
 		}
